@@ -1,2 +1,127 @@
-// In-crate child probe of acmed/src/certificate.rs (feature breard_r_acmed_verif): private access to the parent module.
+// In-crate child probe of acmed/src/certificate.rs (feature breard_r_acmed_verif).
 #![allow(dead_code, unused_imports)]
+use super::*;
+use serde_json::{json, Value};
+
+fn opt_s(v: &Value) -> Option<String> {
+	v.as_str().map(|s| s.to_string())
+}
+
+pub fn file_manager(input: &Value) -> FileManager {
+	FileManager {
+		account_name: input["account_name"].as_str().unwrap_or("acc").to_string(),
+		account_directory: input["account_dir"].as_str().unwrap_or("").to_string(),
+		crt_name: input["name"].as_str().unwrap_or("crt").to_string(),
+		crt_name_format: input["name_format"]
+			.as_str()
+			.unwrap_or(crate::DEFAULT_CERT_FORMAT)
+			.to_string(),
+		crt_directory: input["dir"].as_str().unwrap_or("").to_string(),
+		crt_key_type: input["key_type"].as_str().unwrap_or("ecdsa-p256").to_string(),
+		cert_file_mode: input["cert_file_mode"].as_u64().unwrap_or(0o644) as u32,
+		cert_file_owner: opt_s(&input["cert_file_user"]),
+		cert_file_group: opt_s(&input["cert_file_group"]),
+		cert_file_ext: opt_s(&input["cert_file_ext"]),
+		pk_file_mode: input["pk_file_mode"].as_u64().unwrap_or(0o600) as u32,
+		pk_file_owner: opt_s(&input["pk_file_user"]),
+		pk_file_group: opt_s(&input["pk_file_group"]),
+		pk_file_ext: opt_s(&input["pk_file_ext"]),
+		hooks: vec![],
+		env: HashMap::new(),
+	}
+}
+
+pub fn identifiers(input: &Value) -> Result<Vec<Identifier>, String> {
+	let mut ids = vec![];
+	for i in input["ids"].as_array().cloned().unwrap_or_default() {
+		let t = match i["type"].as_str().unwrap_or("dns") {
+			"ip" => IdentifierType::Ip,
+			_ => IdentifierType::Dns,
+		};
+		let env = HashMap::new();
+		match Identifier::new(
+			t,
+			i["value"].as_str().unwrap_or(""),
+			i["challenge"].as_str().unwrap_or("http-01"),
+			&env,
+		) {
+			Ok(id) => ids.push(id),
+			Err(e) => return Err(e.message),
+		}
+	}
+	Ok(ids)
+}
+
+pub fn certificate(input: &Value) -> Result<Certificate, String> {
+	let key_type: KeyType = input["key_type"]
+		.as_str()
+		.unwrap_or("ecdsa-p256")
+		.parse()
+		.map_err(|e: Error| e.message)?;
+	Ok(Certificate {
+		account_name: "acc".to_string(),
+		identifiers: identifiers(input)?,
+		subject_attributes: HashMap::new(),
+		key_type,
+		csr_digest: HashFunction::Sha256,
+		kp_reuse: input["kp_reuse"].as_bool().unwrap_or(false),
+		endpoint_name: "ep".to_string(),
+		hooks: vec![],
+		crt_name: input["name"].as_str().unwrap_or("crt").to_string(),
+		env: HashMap::new(),
+		random_early_renew: Duration::from_secs(input["rer_s"].as_u64().unwrap_or(0)),
+		renew_delay: Duration::from_secs(input["delay_s"].as_u64().unwrap_or(0)),
+		file_manager: file_manager(input),
+	})
+}
+
+/// op schedule: the real Certificate::schedule_renewal on files prepared by the harness.
+pub async fn schedule(input: &Value) -> Value {
+	let cert = match certificate(input) {
+		Ok(c) => c,
+		Err(e) => return json!({"bad_input": e}),
+	};
+	let ids: Vec<String> = cert.identifiers.iter().map(|i| i.value.clone()).collect();
+	let now = std::time::SystemTime::now()
+		.duration_since(std::time::UNIX_EPOCH)
+		.map(|d| d.as_secs())
+		.unwrap_or(0);
+	match cert.schedule_renewal().await {
+		Ok(d) => json!({"ok_ns": d.as_nanos().to_string(), "ids_norm": ids, "now_unix": now}),
+		Err(e) => json!({"err": e.message, "ids_norm": ids, "now_unix": now}),
+	}
+}
+
+/// op lookup: Certificate::get_identifier_from_str.
+pub fn lookup(input: &Value) -> Value {
+	let cert = match certificate(input) {
+		Ok(c) => c,
+		Err(e) => return json!({"bad_input": e}),
+	};
+	match cert.get_identifier_from_str(
+		input["identifier"].as_str().unwrap_or(""),
+		input["wildcard"].as_bool().unwrap_or(false),
+	) {
+		Ok(id) => json!({"found": {"type": id.id_type.to_string(), "value": id.value, "challenge": id.challenge.to_string()}}),
+		Err(_) => json!({"not_found": true}),
+	}
+}
+
+/// op ident: Identifier::new + get_tls_alpn_name.
+pub fn ident(input: &Value) -> Value {
+	let t = match input["type"].as_str().unwrap_or("dns") {
+		"ip" => IdentifierType::Ip,
+		_ => IdentifierType::Dns,
+	};
+	let env = HashMap::new();
+	match Identifier::new(
+		t,
+		input["value"].as_str().unwrap_or(""),
+		input["challenge"].as_str().unwrap_or("http-01"),
+		&env,
+	) {
+		Ok(id) => json!({"ok": {"type": id.id_type.to_string(), "value": id.value, "challenge": id.challenge.to_string(),
+			"tls_alpn_name": id.get_tls_alpn_name().ok()}}),
+		Err(_) => json!({"rejected": true}),
+	}
+}
